@@ -317,7 +317,7 @@ func (fr *frame) modular(key string, c *Contract, callee *ssa.Function, sig *typ
 			env.vars["result"] = sv
 		}
 		if types.Identical(t, types.Universe.Lookup("error").Type()) {
-			if _, ok := env.vars["err"]; !ok || rs.At(i).Name() == "" {
+			if _, ok := env.vars["err"]; !ok {
 				env.vars["err"] = sv
 			}
 		}
